@@ -6,6 +6,7 @@ Fixpoint abs_of (ops : list op) (line : Z) : list abs :=
   | [] => []
   | ONewline :: r => abs_of r (line + 1)
   | OMap gc si ol oc nm :: r => mkAbs line gc (Some (si, ol, oc)) nm :: abs_of r line
+  | ONull gc :: r => mkAbs line gc None None :: abs_of r line
   end.
 
 Definition push_field (s : dst) (v : Z) : dst :=
@@ -145,7 +146,7 @@ Lemma emit_sound : forall ops lastByte prev s,
 Proof.
   induction ops as [|o ops IH]; intros lastByte prev s HJ.
   - cbn [emit]. split; [exact HJ|reflexivity].
-  - destruct o as [|gc si ol oc nm].
+  - destruct o as [|gc si ol oc nm|gc].
     + (* newline *)
       cbn [emit abs_of].
       set (prev' := mkState (gline prev + 1) 0 (sidx prev) (oline prev) (ocol prev) (oname prev) (has_name prev)).
@@ -236,6 +237,54 @@ Proof.
         split; [assumption|split; assumption]. }
       specialize (IH (last seg lastByte) prev' s2 HJ2).
       replace (gline prev') with (gline prev) in IH by (subst prev' cur; destruct nm; reflexivity).
+      destruct (emit ops (last seg lastByte) prev') as [[b lb] st].
+      destruct IH as [IH1 IH2].
+      rewrite spec_run_app, Hs2. split; [exact IH1|].
+      rewrite IH2, Hout2, Hout1. cbn [rev]. rewrite <- app_assoc. reflexivity.
+    + (* mapping without original position *)
+      cbn [emit abs_of].
+      set (prev' := null_state prev gc).
+      set (seg := null_seg lastByte prev gc).
+      set (s1 := if negb (lastByte =? 0) && negb (lastByte =? SEMI) && negb (lastByte =? QUOTE)
+                 then finish_segment s else s).
+      assert (Hs1 : synced prev s1 /\ d_out s1 = d_out (finish_segment s)).
+      { unfold J in HJ. subst s1. unfold SEMI, QUOTE.
+        destruct (Z.eqb_spec lastByte 0); [cbn; split; [exact HJ|rewrite (finish_synced prev) by exact HJ; reflexivity]|].
+        destruct (Z.eqb_spec lastByte 59); [cbn; split; [exact HJ|rewrite (finish_synced prev) by exact HJ; reflexivity]|].
+        cbn in HJ. destruct HJ as (Hq & Hm & Hsy).
+        replace (lastByte =? 34) with false by lia. cbn. split; [exact Hsy|reflexivity]. }
+      destruct Hs1 as [Hsy Hout1].
+      destruct Hsy as (H1 & H2 & H3 & H4 & H5 & H6 & H7 & H8 & H9 & H10 & H11).
+      assert (Hrun : exists s2,
+                spec_run s seg = s2 /\ d_mid s2 = false /\ d_acc s2 = 0 /\ d_shift s2 = 0 /\
+                d_err s2 = false /\
+                synced prev' (finish_segment s2) /\
+                d_out (finish_segment s2) = mkAbs (gline prev) gc None None :: d_out s1).
+      { eexists. split; [reflexivity|].
+        assert (Hsep : spec_run s (if negb (lastByte =? 0) && negb (lastByte =? SEMI) && negb (lastByte =? QUOTE)
+                                   then [COMMA] else []) = s1).
+        { subst s1. destruct (negb (lastByte =? 0) && negb (lastByte =? SEMI) && negb (lastByte =? QUOTE));
+            [reflexivity|reflexivity]. }
+        subst seg. unfold null_seg, appendMapping. cbn [has_name fst gcol negb].
+        rewrite !spec_run_app.
+        match goal with |- context [spec_run s ?x] => replace (spec_run s x) with s1 by (symmetry; exact Hsep) end.
+        rewrite (spec_run_encodeVLQ s1) by assumption.
+        unfold push_field. cbn. rewrite H1, H5. cbn.
+        unfold synced, prev', null_state. cbn.
+        rewrite H6, H7, H8, H9, H10, ?H11.
+        repeat split; try reflexivity; try lia; repeat f_equal; lia. }
+      destruct Hrun as (s2 & Hs2 & Hm2 & Ha2 & Hsh2 & He2 & Hsy2 & Hout2).
+      assert (Hlast : exists d, 0 <= d < 64 /\ last seg lastByte = b64_char d).
+      { subst seg. unfold null_seg, appendMapping. cbn [has_name fst negb].
+        rewrite last_app_nonempty by apply encodeVLQ_nonempty. apply encodeVLQ_last. }
+      destruct Hlast as (d & Hd & Hlast).
+      assert (HJ2 : J (last seg lastByte) prev' s2).
+      { unfold J. rewrite Hlast. destruct (char_not_sep d Hd) as (C1 & C2 & C3 & C4).
+        replace (b64_char d =? 0) with false by lia.
+        replace (b64_char d =? 59) with false by lia. cbn [orb].
+        split; [assumption|split; assumption]. }
+      specialize (IH (last seg lastByte) prev' s2 HJ2).
+      replace (gline prev') with (gline prev) in IH by reflexivity.
       destruct (emit ops (last seg lastByte) prev') as [[b lb] st].
       destruct IH as [IH1 IH2].
       rewrite spec_run_app, Hs2. split; [exact IH1|].
